@@ -421,3 +421,5 @@ verus_unit(
         "lemma_tiling": dict(own=["C03"], dep=[], text="entries tile [0,2^P) consecutively, non-empty, none is the whole mass"),
     },
 )
+kani("models::lazy_f32_rejects_bad_entries", ["C19"], fns=[M + "categorical/lazy_contiguous.rs::LazyContiguousCategoricalEntropyModel::from_floating_point_probabilities_fast"],
+     text="any NaN or negative entry => Err, for every normalisation")
